@@ -1,4 +1,14 @@
-"""C17 — Parsed diagrams are geometrically sound and independent of absolute position."""
+"""C17 — Parsed diagrams are geometrically sound and independent of absolute position.
+
+Diagram level (oracle on the implementation, raw lxml + plain arithmetic): every corpus diagram parsed and checked for
+soundness; the stored layout translated as a whole; ONE top-level node moved by a random vector; and ONE top-level node
+moved into special relative positions DERIVED from the geometry the diagram has at rest (perturbation_offsets: the two
+ends of an attached edge coincide, an end lands on a bend point / on a corner of the other box, corners / sides /
+centres of the connected boxes coincide, stored segment vectors, corners of top-level boxes on each other) — the
+perturbed layout has to parse, to stay sound, to move the node by exactly the displacement and to leave unrelated
+elements alone.  A parse failure is classified by its innermost frame and the geometry of the failing call
+(crash_class): only the oblique snap on a ray through / within rounding of a corner is a listed finding.
+"""
 from __future__ import annotations
 
 import itertools
@@ -459,7 +469,8 @@ def raw_scan(aird: pathlib.Path):
                 # a parsed element carries either the diagram element's uid or (visual elements,
                 # representation links) the notation node's own xmi:id
                 uuids.update(x for x in (sub.get("element"), sub.get(XMI_ID)) if x)
-            tops.append({"id": ch.get(XMI_ID), "ids": ids, "uuids": uuids})
+            tops.append({"id": ch.get(XMI_ID), "ids": ids, "uuids": uuids,
+                         "own": {x for x in (ch.get("element"), ch.get(XMI_ID)) if x}})
         edges = []
         for ed in data.iterchildren("edges"):
             edges.append({"id": ed.get(XMI_ID), "uuids": {x for x in (ed.get("element"), ed.get(XMI_ID)) if x},
@@ -528,7 +539,8 @@ def snapshot(D, dg):
             def end(x):
                 return (tuple(x.pos), tuple(x.size), bool(x.port)) if isinstance(x, D.Box) else None
             out.append({"k": "E", "uuid": e.uuid, "points": [tuple(q) for q in e], "hidden": bool(e.hidden),
-                        "labels": [box(x) for x in e.labels], "src": end(e.source), "tgt": end(e.target)})
+                        "labels": [box(x) for x in e.labels], "src": end(e.source), "tgt": end(e.target),
+                        "src_uuid": getattr(e.source, "uuid", None), "tgt_uuid": getattr(e.target, "uuid", None)})
         else:
             out.append({"k": "C", "uuid": e.uuid, "center": tuple(e.center), "radius": e.radius, "hidden": bool(e.hidden)})
     vp = dg.viewport
@@ -590,10 +602,14 @@ def shifted(a, b, v) -> bool:
     return pt(a["center"], b["center"]) and a["radius"] == b["radius"]
 
 
-def soundness(chk, mname, dname, snap, routing, stats):
-    """finite coordinates, edge ends on outlines, ports on borders, viewport encloses"""
+def soundness(chk, mname, dname, snap, routing, stats, prefix="diagram", context=None, where=""):
+    """finite coordinates, edge ends on outlines, ports on borders, viewport encloses; -> number of violations"""
+    nviol = [0]
+
     def viol(kind, what, extra):
-        chk.violation(f"diagram:{kind}:{mname}:{dname}", f"{mname} {dname!r}: {what}", dict(extra, model=mname, diagram=dname))
+        nviol[0] += 1
+        chk.violation(f"{prefix}:{kind}:{mname}:{dname}", f"{mname} {dname!r}{where}: {what}",
+                      dict(extra, model=mname, diagram=dname, **(context or {})))
     vp = snap["viewport"]
     for el in snap["elements"]:
         if not all(finite(x) for x in numbers(el)):
@@ -631,6 +647,7 @@ def soundness(chk, mname, dname, snap, routing, stats):
                     viol("viewport", f"visible element {el['uuid']} ({rpos},{rsize}) is outside the viewport {vp}",
                          {"element": el["uuid"], "rect": [rpos, rsize], "viewport": vp})
                     break
+    return nviol[0]
 
 
 def crash_class(exc: BaseException) -> str:
@@ -679,6 +696,179 @@ def border_rounding_style(D, capellambse, aird, kw, duid):
             if 0 < abs(dist) <= 1e-9:
                 return style
     return None
+
+
+# ------------------------------------------------------------------ per-element perturbation of stored layouts
+def box_corners(pos, size):
+    return [(pos[0], pos[1]), (pos[0] + size[0], pos[1]), (pos[0], pos[1] + size[1]), (pos[0] + size[0], pos[1] + size[1])]
+
+
+def perturbation_offsets(snap, dinfo):
+    """Displacements of ONE top-level node that put the stored layout into a special relative position, derived from the
+    geometry the diagram has at rest: for every edge that leaves the node (one end below it, the other end elsewhere)
+    the vectors that make the two ends coincide (the edge collapses: the connected boxes touch), that put an end on a
+    bend point, on a corner of the other box, that make corners / sides / centres of the two boxes coincide (touching,
+    overlapping, coinciding boxes), the stored segment vectors (zero-length segments); and for pairs of top-level
+    boxes the differences of their corners.  -> list of (top index, (dx, dy), reason), most degenerate first."""
+    owner = {}
+    for k, top in enumerate(dinfo["tops"]):
+        for u in top["uuids"]:
+            owner.setdefault(u, k)
+    out, seen = [], set()
+
+    def add(k, v, why, prio):
+        for vx in {math.floor(v[0]), math.ceil(v[0])}:
+            for vy in {math.floor(v[1]), math.ceil(v[1])}:
+                if (vx, vy) != (0, 0) and abs(vx) < 100000 and abs(vy) < 100000 and (k, vx, vy) not in seen:
+                    seen.add((k, vx, vy))
+                    out.append((prio, k, (vx, vy), why))
+
+    def sub(a, b):
+        return (a[0] - b[0], a[1] - b[1])
+
+    for el in snap["elements"]:
+        if el["k"] != "E" or len(el["points"]) < 2 or not all(finite(*q) for q in el["points"]):
+            continue
+        ks, kt = owner.get(el["src_uuid"]), owner.get(el["tgt_uuid"])
+        if ks == kt:
+            continue
+        pts = el["points"]
+        rel = []        # displacement of the TARGET side relative to the source side
+        rel.append((sub(pts[0], pts[-1]), "edge ends coincide", 0))
+        for j in range(1, len(pts) - 1):
+            rel.append((sub(pts[j], pts[-1]), "target end on a bend point", 1))
+            rel.append((sub(pts[0], pts[j]), "source end on a bend point", 1))
+        for j in range(len(pts) - 1):
+            seg = sub(pts[j + 1], pts[j])
+            rel.append((seg, "segment vector", 2))
+            rel.append((sub((0, 0), seg), "segment vector", 2))
+        if el["src"] is not None and el["tgt"] is not None:
+            (sp, ss, _), (tp, ts, _) = el["src"], el["tgt"]
+            for cs in box_corners(sp, ss):
+                for ct in box_corners(tp, ts):
+                    rel.append((sub(cs, ct), "box corners coincide", 1))
+            rel.append(((sp[0] + ss[0] - tp[0], 0), "boxes touch side by side", 1))
+            rel.append(((sp[0] - tp[0] - ts[0], 0), "boxes touch side by side", 1))
+            rel.append(((0, sp[1] + ss[1] - tp[1]), "boxes touch above each other", 1))
+            rel.append(((0, sp[1] - tp[1] - ts[1]), "boxes touch above each other", 1))
+            rel.append((sub((sp[0] + ss[0] / 2, sp[1] + ss[1] / 2), (tp[0] + ts[0] / 2, tp[1] + ts[1] / 2)), "box centres coincide", 1))
+        if el["src"] is not None:
+            for cs in box_corners(el["src"][0], el["src"][1]):
+                rel.append((sub(cs, pts[-1]), "target end on a corner of the source box", 2))
+        if el["tgt"] is not None:
+            for ct in box_corners(el["tgt"][0], el["tgt"][1]):
+                rel.append((sub(pts[0], ct), "source end on a corner of the target box", 2))
+        for v, why, prio in rel:
+            if not finite(*v):
+                continue
+            if kt is not None:
+                add(kt, v, f"{why} (edge {el['uuid']}, target side moved)", prio)
+            if ks is not None:
+                add(ks, (-v[0], -v[1]), f"{why} (edge {el['uuid']}, source side moved)", prio)
+    tops = []
+    for k, top in enumerate(dinfo["tops"]):
+        for el in snap["elements"]:
+            if el["k"] == "B" and el["uuid"] in top["own"] and finite(*el["pos"], *el["size"]):
+                tops.append((k, el))
+                break
+    for (k, a), (l, b) in itertools.permutations(tops, 2):
+        for ca in box_corners(a["pos"], a["size"]):
+            for cb in box_corners(b["pos"], b["size"]):
+                add(k, sub(cb, ca), f"corner of top-level node on a corner of top-level node #{l}", 3)
+    out.sort(key=lambda c: c[0])
+    return [(k, v, why) for _, k, v, why in out]
+
+
+def run_perturbed(chk, D, capellambse, mname, aird, kw, dinfos, routing, stats):
+    """Move single top-level nodes of the stored layout (in memory, on the scratch copy at `aird`) by the offsets of
+    perturbation_offsets and parse again: the parse must succeed, stay geometrically sound, leave unrelated elements
+    alone and move the node by exactly the displacement."""
+    quick = chk.tier == "quick"
+    rng = chk.rng
+    m = capellambse.MelodyModel(str(aird), **kw)
+    datas = {}
+    for tr in m._loader.trees.values():
+        for data in gmf_diagrams(tr.root):
+            datas[data.getparent().getparent().get("uid")] = data
+    budget = 9000 if quick else 15000          # per model
+    per_diagram = max(30, budget // max(1, len(dinfos)))
+    reasons = stats.setdefault("perturbation_reasons", {})
+    for d in m.diagrams:
+        duid = d._element.get("repPath", "#")[1:]
+        if duid not in dinfos or duid not in datas or not dinfos[duid]["tops"]:
+            continue
+        dname = d.name
+        try:
+            snap = snapshot(D, d.render(None))
+        except Exception:  # noqa: BLE001  (reported by the at-rest pass)
+            continue
+        lcs = {}
+        for ch in datas[duid].iterchildren("children"):
+            lc = next(ch.iterchildren("layoutConstraint"), None)
+            if lc is not None:
+                lcs[ch.get(XMI_ID)] = lc
+        cands = perturbation_offsets(snap, dinfos[duid])
+        stats["perturbation_candidates"] = stats.get("perturbation_candidates", 0) + len(cands)
+        first = [c for c in cands if c[2].startswith("edge ends coincide")]
+        rest = [c for c in cands if not c[2].startswith("edge ends coincide")]
+        rng.shuffle(rest)
+        todo = first + rest[: max(0, per_diagram - len(first))]
+        for k, v, why in todo:
+            top = dinfos[duid]["tops"][k]
+            lc = lcs.get(top["id"])
+            if lc is None:
+                continue
+            old = (lc.get("x"), lc.get("y"))
+            lc.set("x", str(int(old[0] or 0) + v[0]))
+            lc.set("y", str(int(old[1] or 0) + v[1]))
+            d.invalidate_cache()
+            nsnap, nerr = None, None
+            try:
+                nsnap = snapshot(D, d.render(None))
+            except Exception as e:  # noqa: BLE001
+                nerr = (type(e).__name__, crash_class(e), str(e)[:200])
+            finally:
+                for name, val in (("x", old[0]), ("y", old[1])):
+                    if val is None:
+                        lc.attrib.pop(name, None)
+                    else:
+                        lc.set(name, val)
+                d.invalidate_cache()
+            stats["perturbations"] = stats.get("perturbations", 0) + 1
+            kind = why.split(" (")[0].split(" #")[0]
+            reasons[kind] = reasons.get(kind, 0) + 1
+            chk.note_case(("perturb", mname, duid, k, v))
+            replay = {"model": mname, "diagram": dname, "diagram_uid": duid, "top_level_node_index": k, "node_id": top["id"],
+                      "displacement": v, "derived_from": why}
+            if nerr is not None:
+                cls = nerr[1]
+                stats["crash_classes"][cls] = stats["crash_classes"].get(cls, 0) + 1
+                key = ("diagram-perturb:oblique-corner" if cls == "oblique-corner-rounding"
+                       else f"diagram-perturb:crash:{cls}:{mname}:{dname}")
+                chk.violation(key, f"{mname} {dname!r}: moving top-level node #{k} by {v} ({why}) makes the parse fail ({nerr[0]}: {nerr[2]})",
+                              dict(replay, error=nerr))
+                continue
+            a, b = snap["elements"], nsnap["elements"]
+            if len(a) != len(b):
+                chk.violation(f"diagram-perturb:elements:{mname}:{dname}", f"{mname} {dname!r}: moving node #{k} by {v} changes the number of elements {len(a)} -> {len(b)}", replay)
+                continue
+            moved = moved_uuids(dinfos[duid], k)
+            for x, y in zip(a, b):
+                if x["uuid"] in top["own"] and x["k"] == "B" and x["parent"] is None:
+                    if not (abs(y["pos"][0] - x["pos"][0] - v[0]) <= EPS and abs(y["pos"][1] - x["pos"][1] - v[1]) <= EPS):
+                        chk.violation(f"diagram-perturb:node-not-moved:{mname}:{dname}",
+                                      f"{mname} {dname!r}: top-level node #{k} displaced by {v} ({why}) went from {x['pos']} to {y['pos']}",
+                                      dict(replay, before=x, after=y))
+                        break
+                if x["uuid"] in moved:
+                    continue
+                if not shifted(x, y, (0, 0)):
+                    chk.violation(f"diagram-perturb:other-element-changed:{mname}:{dname}",
+                                  f"{mname} {dname!r}: moving top-level node #{k} by {v} ({why}) changed unrelated element {x['uuid']}",
+                                  dict(replay, before=x, after=y))
+                    break
+            soundness(chk, mname, dname, nsnap, routing, {}, prefix="diagram-perturb", context=replay,
+                      where=f" with top-level node #{k} moved by {v} ({why})")
 
 
 def run_diagrams(chk: lib.Check):
@@ -832,6 +1022,13 @@ def run_diagrams(chk: lib.Check):
                                           f"{mname} {dname!r}: moving top-level node #{pick[duid]} by {v} changed unrelated element {x['uuid']}",
                                           dict(replay, before=x, after=y))
                             break
+
+            # ---- moving single nodes into special relative positions derived from the stored geometry
+            tree.write(str(dst), xml_declaration=True, encoding="UTF-8")      # the layout at rest (the tree is restored after every write)
+            try:
+                run_perturbed(chk, D, capellambse, mname, dst, kw1, dinfos, routing, stats)
+            except Exception as e:  # noqa: BLE001
+                chk.broken.append(f"harness: perturbation stream on {mname}: {type(e).__name__}: {e}")
     chk.coverage["diagrams"] = stats
     chk.samples.append({"diagram_run": {k: stats[k] for k in ("models", "diagrams", "translated_diagrams", "node_moves")}})
 
@@ -1015,8 +1212,11 @@ def run(chk: lib.Check):
         "translation of exact cases by random integer vectors in [-5000,5000]^2; primitives: line_intersect / closestaxis / snap_to_parent "
         "(port, non-port) / calculate_viewport model vs implementation; edge ends: snaptarget and route_* on synthetic boxes and polylines; "
         "diagrams: every diagram of " + ("the 5_2 test model" if quick else "every model under tests/data") + " parsed, checked for soundness, "
-        "re-parsed after translating the stored .aird layout (one random or extreme vector per diagram and round) and after moving one "
-        "top-level node per diagram and round; non-trivial = distinct call / diagram / (diagram, vector)")
+        "re-parsed after translating the stored .aird layout (one random or extreme vector per diagram and round), after moving one "
+        "top-level node per diagram and round by a random vector, and after moving single top-level nodes by offsets derived from the stored "
+        "geometry (every 'edge ends coincide' offset of every edge that leaves a top-level node, a seeded sample of the other classes: end on "
+        "bend point / box corner, box corners, sides and centres coinciding, segment vectors, corners of top-level boxes; "
+        + ("up to 9000 per model" if quick else "up to 15000 per model") + "); non-trivial = distinct call / diagram / (diagram, vector)")
     chk.coverage["exhaustive"] = not quick
     chk.assumptions += [
         "Model/Geom.v is over exact rationals: implementation floats are converted exactly (fractions.Fraction) and results compared within 1e-6; "
